@@ -245,8 +245,13 @@ def main(tier, seed, replay=None):
     import worldcheck as WC
     wstats = {}
     if not replay or world_replay:
+        def spelled(rng_, **kw):
+            # every fourth history regenerates its manifest, invoked as `-f ./build.ninja` and the like
+            if rng_.random() < 0.25:
+                return WC.gen_history(rng_, with_regen=rng_.choice([True, "include"]), **kw)
+            return WC.gen_history(rng_, **kw)
         wstats, _, _, _ = WC.world_leg(run, PROP, rng, tier, drv, har, 150 if tier == "quick" else 1500,
-                                       [WC.monitor_one_node_per_location, WC.monitor_null_build],
+                                       [WC.monitor_one_node_per_location, WC.monitor_null_build], scen_gen=spelled,
                                        replay=replay if world_replay else None)
     run.coverage.update(info)
     run.coverage.update({
